@@ -1,9 +1,219 @@
 package main
 
 import (
-	_ "golang.org/x/tools/go/callgraph/vta"
-	_ "golang.org/x/tools/go/packages"
-	_ "golang.org/x/tools/go/ssa/ssautil"
+	"encoding/json"
+	"flag"
+	"fmt"
+	"os"
+	"path/filepath"
+	"runtime/debug"
+	"sort"
+	"strconv"
+	"strings"
+
+	"golang.org/x/tools/go/ssa"
 )
 
-func main() {}
+type propFunc func(r *Report) propMeta
+
+var props = map[string]propFunc{}
+
+func verifDir() string {
+	if d := os.Getenv("VERIF_DIR"); d != "" {
+		return d
+	}
+	exe, err := os.Executable()
+	if err == nil {
+		d := filepath.Dir(filepath.Dir(exe))
+		if _, err := os.Stat(filepath.Join(d, "MANIFEST.json")); err == nil {
+			return d
+		}
+	}
+	wd, _ := os.Getwd()
+	return wd
+}
+
+func main() {
+	prop := flag.String("property", "", "property id (C01..C20)")
+	tier := flag.String("tier", "quick", "quick|thorough")
+	warm := flag.Bool("warm", false, "perform one load to warm the build cache")
+	dir := flag.String("dir", "/repo", "repository directory")
+	dump := flag.String("dump", "", "debug: dump conditions/calls of a function key (comma separated)")
+	list := flag.String("list", "", "debug: list function keys containing substring")
+	explain := flag.String("explain", "", "replay: path of a violation file")
+	mutant := flag.String("mutant", "", "internal: run the property on an overlay mutant (file::old::new)")
+	callers := flag.String("callers", "", "debug: list callers of function key")
+	manifest := flag.Bool("manifest", false, "regenerate MANIFEST.json from the registered properties")
+	flag.Parse()
+	if t := os.Getenv("VERIF_TIER"); t == "quick" || t == "thorough" {
+		*tier = t
+	}
+	seed := 0
+	if s := os.Getenv("VERIF_SEED"); s != "" {
+		seed, _ = strconv.Atoi(s)
+	}
+
+	if *explain != "" {
+		b, err := os.ReadFile(*explain)
+		if err != nil {
+			fmt.Println("cannot read", *explain, err)
+			os.Exit(2)
+		}
+		var v map[string]any
+		json.Unmarshal(b, &v)
+		if p, ok := v["property"].(string); ok && *prop == "" {
+			*prop = p
+		}
+		fmt.Printf("replaying %s: re-analysing %s for property %s; the recorded violation key is %v\n", *explain, *dir, *prop, v["key"])
+	}
+
+	opts := LoadOpts{Dir: *dir}
+	var mutDesc string
+	if *mutant != "" {
+		parts := strings.SplitN(*mutant, "::", 3)
+		if len(parts) != 3 {
+			fmt.Println("bad -mutant")
+			os.Exit(2)
+		}
+		p := filepath.Join(*dir, parts[0])
+		src, err := os.ReadFile(p)
+		if err != nil {
+			fmt.Println("MUTANT-STALE cannot read", p)
+			os.Exit(3)
+		}
+		if strings.Count(string(src), parts[1]) != 1 {
+			fmt.Printf("MUTANT-STALE anchor text occurs %d times in %s\n", strings.Count(string(src), parts[1]), parts[0])
+			os.Exit(3)
+		}
+		opts.Overlay = map[string][]byte{p: []byte(strings.Replace(string(src), parts[1], parts[2], 1))}
+		mutDesc = parts[0]
+	}
+
+	w, err := Load(opts)
+	if err != nil {
+		if *mutant != "" {
+			fmt.Println("MUTANT-NOCOMPILE", err)
+			os.Exit(4)
+		}
+		fmt.Printf("internal: %v\n", err)
+		if *prop != "" {
+			r := NewReport(*prop, *tier, nil)
+			r.Rule(*prop+".internal", "loader")
+			r.Unres("load", "the repository loads and type-checks", err.Error())
+			os.Exit(r.Finish(verifDir(), propMeta{}, seed, nil) | 1)
+		}
+		os.Exit(1)
+	}
+	if *warm {
+		w.CG()
+		fmt.Printf("warm: %d packages, %d functions, load %.1fs ssa %.1fs cg %.1fs\n", len(w.Pkgs), len(w.AllFuncs), w.LoadS, w.SSAS, w.CGS)
+		return
+	}
+	if *manifest {
+		if err := writeManifest(w, verifDir()); err != nil {
+			fmt.Println(err)
+			os.Exit(1)
+		}
+		fmt.Println("MANIFEST.json written")
+		return
+	}
+	if *list != "" {
+		for _, k := range sortedKeys(w.Funcs) {
+			if strings.Contains(k, *list) {
+				fmt.Println(k)
+			}
+		}
+		return
+	}
+	if *callers != "" {
+		fn := w.Fn(*callers)
+		if fn == nil {
+			fmt.Println("not found")
+			os.Exit(2)
+		}
+		for _, e := range w.CallersOf(fn) {
+			fmt.Printf("%s  at %s  scope=%v\n", FuncKey(e.Caller), w.Pos(e.Site.Pos()), inRepoScope(e.Caller))
+		}
+		return
+	}
+	if *dump != "" {
+		for _, k := range strings.Split(*dump, ",") {
+			dumpFn(w, k)
+		}
+		return
+	}
+	pf, ok := props[*prop]
+	if !ok {
+		fmt.Printf("unknown property %q; known: %v\n", *prop, sortedKeys(props))
+		os.Exit(2)
+	}
+	r := NewReport(*prop, *tier, w)
+	var meta propMeta
+	func() {
+		defer func() {
+			if e := recover(); e != nil {
+				r.Rule(*prop+".internal", "engine")
+				r.Unres("panic", "the engines run to completion", fmt.Sprintf("engine panic: %v\n%s", e, debug.Stack()))
+			}
+		}()
+		meta = pf(r)
+	}()
+	if *mutant != "" {
+		// mutant mode: print violated keys, never touch evidence
+		n := 0
+		for _, o := range r.Obls {
+			if o.status != Discharged {
+				n++
+				fmt.Printf("MUTANT-HIT %s %s [%s] %s\n", o.Status, o.Key, o.Where, clip(o.Detail, 160))
+			}
+		}
+		fmt.Printf("MUTANT-DONE %s hits=%d\n", mutDesc, n)
+		return
+	}
+	var st any
+	if *tier == "thorough" {
+		st = runSelfTest(*prop, *dir)
+	}
+	code := r.Finish(verifDir(), meta, seed, st)
+	os.Exit(code)
+}
+
+func dumpFn(w *World, key string) {
+	fn := w.Fn(key)
+	if fn == nil {
+		fmt.Println("not found:", key)
+		return
+	}
+	fmt.Printf("=== %s (%s) blocks=%d\n", key, w.FnPos(fn), len(fn.Blocks))
+	for _, b := range fn.Blocks {
+		for _, in := range b.Instrs {
+			switch x := in.(type) {
+			case *ssa.If:
+				p := NormalizeCond(x.Cond)
+				fmt.Printf("  b%d IF %s  -> T:b%d F:b%d   [%s]\n", b.Index, clip(p.String(), 400), b.Succs[0].Index, b.Succs[1].Index, w.Pos(x.Cond.Pos()))
+			case ssa.CallInstruction:
+				fmt.Printf("  b%d CALL %s  [%s]\n", b.Index, clip(renderCall(x).String(), 300), w.Pos(x.Pos()))
+			case *ssa.Return:
+				var rs []string
+				for _, r := range x.Results {
+					rs = append(rs, clip(Render(r).String(), 160))
+				}
+				fmt.Printf("  b%d RETURN %s fail=%v\n", b.Index, strings.Join(rs, " ; "), returnIsFailure(fn, x))
+			case *ssa.Store:
+				fmt.Printf("  b%d STORE %s = %s\n", b.Index, clip(Render(x.Addr).String(), 100), clip(Render(x.Val).String(), 200))
+			case *ssa.Panic:
+				fmt.Printf("  b%d PANIC\n", b.Index)
+			case *ssa.Send:
+				fmt.Printf("  b%d SEND %s <- %s\n", b.Index, Render(x.Chan), clip(Render(x.X).String(), 200))
+			}
+		}
+	}
+	var anon []string
+	for _, a := range fn.AnonFuncs {
+		anon = append(anon, FuncKey(a))
+	}
+	sort.Strings(anon)
+	if len(anon) > 0 {
+		fmt.Println("  anon:", anon)
+	}
+}
